@@ -330,11 +330,18 @@ Print Assumptions C16_gen_write_changes_table_fingerprint.
 (* ---- the memo protocol: Vector.fingerprint / Table.fingerprint -------------------------------
    generated as (self._fp before, fingerprint of the current contents) -> (self._fp after, returned) *)
 
+(* [nested] = the vector's elements are vectors (a ragged vector of vectors): then the memo is not trusted (F49) *)
 Theorem gen_vector_fingerprint_memo_eq : forall m full,
-  GenFingerprint.vector_fingerprint m full =
+  GenFingerprint.vector_fingerprint m full false =
   let x := match m with Some x => x | None => full end in (Some x, Some x).
 Proof. intros [x|] full; reflexivity. Qed.
 Print Assumptions gen_vector_fingerprint_memo_eq.
+
+(* a vector of vectors never trusts its memo either: its elements are written through their own handles *)
+Theorem gen_nested_vector_fingerprint_drops_memo : forall m full,
+  GenFingerprint.vector_fingerprint m full true = (Some full, Some full).
+Proof. intros [x|] full; reflexivity. Qed.
+Print Assumptions gen_nested_vector_fingerprint_drops_memo.
 
 (* a table never trusts its own memo: whatever was cached, the columns are recombined *)
 Theorem gen_table_fingerprint_drops_memo : forall m full,
@@ -348,7 +355,7 @@ Definition out_of (r : option Z) : outcome := match r with Some x => OkFp x | No
 Theorem C16_gen_fingerprint_step_vector : forall hn N U s h v,
   aget (heap s) h = Some (OV v) ->
   let r := GenFingerprint.vector_fingerprint (vfp v)
-             (GenFingerprint.compute_fingerprint_full sval obs_sval (hash_sval hn) N U (vals v)) in
+             (GenFingerprint.compute_fingerprint_full sval obs_sval (hash_sval hn) N U (vals v)) false in
   step s (OFp h) =
   (mkSt (aset (heap s) h (OV (mkVec (vals v) (sid v) (nm v) (dt v) (fst r)))) (reg s), out_of (snd r)).
 Proof.
